@@ -709,33 +709,49 @@ class Interp:
 
     def abstract_loop(self, st, env, coll):
         """loop over a collection known only through a membership predicate (dict items,
-        all simulators, ...): iteration order and count are arbitrary, so the invariant must
-        be index-free.  Rule: Inv on entry; havoc; assume Inv; either one more iteration with
-        an ARBITRARY member (then Inv again) or exit with Inv."""
+        all simulators, ...): iteration order is arbitrary.  Rule with a ghost set `seen` of the
+        elements processed so far (available to the invariant as v.seen):
+          Inv(seen = {}) on entry; havoc; assume Inv(seen), seen within the collection;
+          either one more iteration with an ARBITRARY member not in seen, then Inv(seen + {e});
+          or exit with Inv(seen) and seen = the whole collection."""
         inv = self.s.loop_invariant(self.frame, st)
         if inv is None:
             raise Unsupported(f"loop over an abstract collection without invariant at line {st.lineno} ({self.frame.qualname})")
         lab = self.oid(st)
-        self._oblige_inv(lab + ":inv_entry", "loop_inv_entry", inv(None, LoopView(self, env)), st, "invariant holds on entry")
+        key_sort = getattr(coll, "key_sort", None)
+        seen = z3.K(key_sort, z3.BoolVal(False)) if key_sort is not None else None
+        self._oblige_inv(lab + ":inv_entry", "loop_inv_entry", inv(None, LoopView(self, env, seen)), st, "invariant holds on entry")
         self.s.havoc_loop(self, st, env, inv)
-        self.p.assume(self._inv_formula(inv(None, LoopView(self, env))))
+        if key_sort is not None:
+            seen = self.p.fresh("seen", z3.ArraySort(key_sort, z3.BoolSort()))
+            x = z3.Const(f"e!seen{next(self.p.names)}", key_sort)
+            self.p.assume(z3.ForAll([x], z3.Implies(seen[x], coll.member(x))))
+        self.p.assume(self._inv_formula(inv(None, LoopView(self, env, seen))))
         more = self.p.fresh("iterate", "bool")
         if self.decide(more):
-            self.assign(st.target, coll.arbitrary(self), env)
+            item = coll.arbitrary(self)
+            if key_sort is not None:
+                k = coll.key_of(item)
+                self.p.assume(z3.And(coll.member(k), z3.Not(seen[k])))
+                seen = z3.Store(seen, k, True)
+            self.assign(st.target, item, env)
             try:
                 self.exec_block(st.body, env)
             except _Continue:
                 pass
             except _Break:
                 return
-            self._oblige_inv(lab + ":inv_preserved", "loop_inv_preserved", inv(None, LoopView(self, env)), st,
+            self._oblige_inv(lab + ":inv_preserved", "loop_inv_preserved", inv(None, LoopView(self, env, seen)), st,
                              "invariant preserved by the body (for an arbitrary element)")
             ip = self.s.loop_iter_post(self.frame, st)
             if ip is not None:
-                self.p.oblige(lab + ":iteration_effect", "loop_iteration_effect", ip(LoopView(self, env)), self.where(st),
+                self.p.oblige(lab + ":iteration_effect", "loop_iteration_effect", ip(LoopView(self, env, seen)), self.where(st),
                               "effect of one iteration on its (arbitrary) element")
             raise PathEnd()
         else:
+            if key_sort is not None:
+                x = z3.Const(f"e!all{next(self.p.names)}", key_sort)
+                self.p.assume(z3.ForAll([x], z3.Implies(coll.member(x), seen[x])))
             self.exec_block(st.orelse, env)
 
     def iter_plan(self, it):
@@ -1595,9 +1611,10 @@ class Namespace:
 class LoopView:
     """what a loop invariant may look at: locals (and parameters) by name"""
 
-    def __init__(self, interp, env):
+    def __init__(self, interp, env, seen=None):
         self._i = interp
         self._env = env
+        self.seen = seen
 
     def __getattr__(self, name):
         try:
